@@ -732,6 +732,13 @@ func check(st *stream, h *History, o *obs) *verdict {
 		for fi := 0; fi <= k; fi++ {
 			for _, pi := range st.fr[trV][fi].Pk {
 				if !c.avail[pi] {
+					// a pre-roll packet lost so long ago that the sample
+					// builder has given up on its frame (the ring holds
+					// 2*256 packets) and on the gap (256 packets) no
+					// longer delays anything
+					if p := st.pk[pi]; p.Macro && p.PreLost && st.macroAfter(pi) >= 3*256+2 {
+						continue
+					}
 					lossBeforeK = true
 				} else if c.availStep[pi] > kReady {
 					kReady = c.availStep[pi]
@@ -805,6 +812,40 @@ func check(st *stream, h *History, o *obs) *verdict {
 	// arrival jitter of the history plus ms truncation.
 	if cfg.hasAudio() && cfg.hasVideo() {
 		tol := int64(maxDelay/time.Millisecond) + 3
+		// Once a sender report has been received for both tracks, the two
+		// origins are tied to the publisher's clock and no longer to arrival
+		// instants: in a first file that was created after both reports,
+		// only the two millisecond truncations (and one RTP tick of
+		// rounding) remain.
+		exact := false
+		if len(o.files) > 0 && o.files[0].openStep >= 0 {
+			first := [2]int{-1, -1}
+			for si, s := range h.Steps {
+				if s.K == "sr" && first[s.P] < 0 {
+					first[s.P] = si
+				}
+			}
+			exact = first[trA] >= 0 && first[trV] >= 0 && first[trA] < o.files[0].openStep && first[trV] < o.files[0].openStep
+		}
+		if exact {
+			for _, a := range blocks {
+				if a.track != trA || a.frame < 0 || a.file != 0 {
+					continue
+				}
+				for _, b := range blocks {
+					if b.track != trV || b.frame < 0 || b.file != 0 {
+						continue
+					}
+					fa, fv := st.fr[trA][a.frame], st.fr[trV][b.frame]
+					want := int64((fa.Cap - fv.Cap) / time.Millisecond)
+					got := a.time - b.time
+					if d := got - want; d > 2 || d < -2 {
+						v.add("av-offset/after-sender-reports-for-both-tracks", fmt.Sprintf("%s at %d ms and %s at %d ms differ by %d ms in the file, their capture instants by %d ms, although sender reports for both tracks (which tie both RTP clocks to the publisher's clock exactly) had been received before the file was created (tolerance 2 ms: truncation to ms of both block times)",
+							st.fname(trA, a.frame), a.time, st.fname(trV, b.frame), b.time, got, want))
+					}
+				}
+			}
+		}
 		for _, a := range blocks {
 			if a.track != trA || a.frame < 0 {
 				continue
